@@ -24,6 +24,10 @@ const NUMS: &[&str] = &[
     "-2147483647", "-2147483648", "4294967295", "4294967296", "99999999999999999999", "\"7FFFFFFF", "\"80000000", "\"FF", "'777",
     "'17777777777", "'8", "\"G", "`a", "`\\a", "`\\^^M", "`^^@", "`", "--5", "-+-3", "+", "-", "\\count1", "\\dimen1", "\\skip1",
     "\\toks1", "\\catcode`a", "\\the\\count1", "1.5", ".5", "1,5", "1e3",
+    // more digits than any scanner keeps (TeX 452 keeps 17 of a fraction), leading zeros, a line that ends inside the constant
+    "0.3333333333333333", "0.33333333333333333", "0.333333333333333333", ".99999999999999999999999999999999999999999",
+    "16383.999999999999999999", "0000000000000000000000000000000000000001", "\"00000000000000000000FF", "'0000000000000000000000077",
+    "`\\\n", "`\\", "`\\^^", "`^^", "`\\^^M\n", "`\\é", "`\\ab", "`\\\\",
 ];
 const UNITS: &[&str] = &["pt", "sp", "pc", "in", "bp", "cm", "mm", "dd", "cc", "em", "ex", "fil", "fill", "filll", "fillll", "truept", "true pt", "xx", "", "p", "\\dimen1", "\\count1", "\\skip1"];
 const ODD: &[&str] = &["#", "##", "^^M", "^^@", "^^?", "^^", "^", "~", "$", "&", "_", "%", "é", "€", "\u{7f}", "\u{0}", "\t", " ", "  ", "\n", "\n\n", "\\", "\\ ", "\\\n", "{", "}", "{}", "}{", "a", "Z", "0", "=", "<", ">", "."];
@@ -202,7 +206,8 @@ fn chunk_spaced(rng: &mut Rng, vocab: &[String], depth: u32) -> String {
             // state that only takes effect when the lexer starts another line (of this file, of an \input
             // file, of a \read stream): set it to an edge value, then start a line
             let set = match rng.below(4) {
-                0 | 1 => format!("\\endlinechar={} ", num(rng)),
+                0 => format!("\\endlinechar={} ", num(rng)),
+                1 => format!("\\endlinechar={} ", pick(rng, &["-1", "-1", "256", "92", "96", "32", "37"])),
                 2 => format!("\\catcode{}={} ", pick(rng, &["13", "32", "10", "`\\^^M", "`\\ ", "`a", "92", "`\\\\"]), pick(rng, &["0", "5", "9", "10", "13", "14", "15", "11"])),
                 _ => format!("\\count1={} \\endlinechar=\\count1 ", num(rng)),
             };
@@ -212,6 +217,12 @@ fn chunk_spaced(rng: &mut Rng, vocab: &[String], depth: u32) -> String {
                 2 => format!("\\input {} ", pick(rng, &["fa", "fb", "fc", "dir/fd"])),
                 3 => "\\openin1=fa \\read1 to\\xa \\read1 to\\xb ".to_string(),
                 _ => format!("\n{}\n", chunk(rng, vocab, 0)),
+            };
+            // ... or end a line where a scanner is still looking for its operand
+            let next = if rng.chance(1, 4) {
+                format!("{}{}\n{}", pick(rng, &["\\count1=`\\", "\\count1=`", "\\count1=", "\\catcode`\\", "\\let\\xa=\\", "\\def\\", "\\the\\", "\\dimen1=1.", "\\chardef\\xa=`\\"]), "", chunk(rng, vocab, 0))
+            } else {
+                next
             };
             format!("{set}{next}")
         }
